@@ -903,6 +903,10 @@ class Raises:
     def _expr_raises(self, node, module, cls, dyn):
         out = set()
         for n in walk_no_nested(node):
+            # documented implicit raise: indexing the module namespace / a dict display with a computed key
+            if isinstance(n, ast.Subscript) and isinstance(n.ctx, ast.Load) and isinstance(n.value, ast.Call) and isinstance(n.value.func, ast.Name) \
+                    and n.value.func.id in ('globals', 'locals', 'vars') and not isinstance(n.slice, ast.Constant):
+                out.add('KeyError')
             if isinstance(n, ast.Call):
                 for tgt in self.resolve(module, cls, n):
                     if tgt[0] == 'dyn':
